@@ -20,6 +20,7 @@ var c17Corpus = []corpusCase{
 	{"unknown-name", withVars(fixedIn(`query A { me { firstName } } query B { me { lastName } }`), "Z", nil), "error, no service contacted"},
 	{"single-operation-unknown-name", withVars(fixedIn(`query A { me { firstName lastName } }`), "Z", nil), "error, no service contacted"},
 	{"single-anonymous-with-name", withVars(fixedIn(`{ me { firstName } }`), "Z", nil), "error, no service contacted"},
+	{"mutation-before-query", withVars(fixedIn(`mutation M { bump(id: "u1") { firstName } } query Q { me { firstName lastName } }`), "Q", nil), "a query planned after a mutation of the same document"},
 	{"mutation-and-query", withVars(fixedIn(`query Q { me { firstName } } mutation M { bump(id: "u1") { firstName lastName } }`), "M", nil), ""},
 }
 
@@ -62,6 +63,13 @@ func genDoc(c *Ctx, i int) (string, []string, map[string]interface{}) {
 		for kk, v := range g.Vars {
 			vars[kk] = v
 		}
+	}
+	if r.Intn(3) == 0 {
+		// a mutation somewhere among the queries (also in front of them)
+		m := []string{`mutation Mut { bump(id: "u1") { firstName lastName } }`, `mutation Mut { touch(id: "p1") { url likes } }`, `mutation Mut { bump(id: "u2") { id nick } }`}[r.Intn(3)]
+		at := r.Intn(len(ops) + 1)
+		ops = append(ops[:at], append([]string{m}, ops[at:]...)...)
+		names = append(names[:at], append([]string{"Mut"}, names[at:]...)...)
 	}
 	return strings.Join(ops, " ") + strings.Join(frags, " "), names, vars
 }
